@@ -24,6 +24,8 @@ mod preface;
 pub mod proto;
 mod rpc;
 pub mod testonly;
+#[cfg(feature = "verif")]
+pub mod verif;
 #[cfg(test)]
 mod tests;
 mod watch;
